@@ -11,6 +11,8 @@ import (
 	"testing"
 	"time"
 
+	"google.golang.org/grpc/codes"
+	"google.golang.org/grpc/status"
 	"verif/harness/mon"
 	"verif/harness/sim"
 )
@@ -20,7 +22,7 @@ func TestC20JoinAnswerCutShort(t *testing.T) {
 	if os.Getenv("VERIF_CASE") != "" {
 		return
 	}
-	n := rec.N(6, 32)
+	n := rec.N(9, 36)
 	for c := 0; c < n; c++ {
 		if rec.Mine(c + 3) {
 			joinAnswerCutShort(rec, c)
@@ -30,7 +32,7 @@ func TestC20JoinAnswerCutShort(t *testing.T) {
 
 func joinAnswerCutShort(rec *mon.Recorder, c int) {
 	members := 2 + c%2 // 2 or 3 members before the join
-	cut := 1 + (c/2)%2
+	cut := (c / 2) % 3 // 0: the request itself is lost (nothing reaches the member); 1, 2: the answer breaks after that many entries
 	r := &run{rec: rec, c: c, desc: fmt.Sprintf("join-answer-cut-short case=%d members=%d asked=node-%d answer-cut-after=%d", c, members, 1+c%members, cut)}
 	rec.Current(r.desc)
 	r.cl = sim.New(sim.Options{Nodes: members + 1, Dir: os.Getenv("VERIF_SCRATCH") + fmt.Sprintf("/c20cut-%d", c), TickEvery: 5 * time.Millisecond, Seed: rec.Seed() + int64(c), NoJoinBarrier: true})
@@ -42,7 +44,11 @@ func joinAnswerCutShort(rec *mon.Recorder, c int) {
 	asked := cl.Nodes[c%members]
 	joiner := cl.Nodes[members]
 	joiner.JoinVia = asked.Addr
-	asked.SetFault("AddNode", sim.RPCFault{CutAfter: cut})
+	if cut == 0 {
+		asked.SetFault("AddNode", sim.RPCFault{Err: status.Error(codes.Unavailable, "sim: connection lost before the request arrived")})
+	} else {
+		asked.SetFault("AddNode", sim.RPCFault{CutAfter: cut})
+	}
 	err := cl.StartNode(joiner.Idx)
 	asked.ClearFaults()
 	if err != nil {
@@ -54,7 +60,7 @@ func joinAnswerCutShort(rec *mon.Recorder, c int) {
 			return
 		}
 	} else {
-		r.note(fmt.Sprintf("join through node %d acknowledged although its answer was cut after %d entries", asked.Id, cut))
+		r.note(fmt.Sprintf("join through node %d acknowledged although the handshake broke (request lost / answer cut after %d entries)", asked.Id, cut))
 		rec.Count("join_answers_cut_short_taken_as_acknowledgement", 1)
 	}
 	want := map[uint64]string{}
